@@ -6,8 +6,6 @@
 #include <kernel/space/argyris/element.hpp>
 #include <kernel/space/bogner_fox_schmit/element.hpp>
 #include <kernel/space/hermite3/element.hpp>
-#include <kernel/space/dof_assignment_common.hpp>
-#include <kernel/space/lagrange1/element.hpp>
 
 using namespace FEAT;
 using namespace c15;
@@ -111,54 +109,6 @@ struct DescBFS : DescLagrangeBase<3>
   }
 };
 
-/// The generic DofAssignment classes of dof_assignment_common.hpp are used by no element family of the library (all
-/// families use DofAssignmentUniform), so they are instantiated directly: their contract is "entity e of the dof
-/// dimension owns the dofs n*e .. n*e+n-1, entities of other dimensions own nothing".
-template<typename Shape_>
-void check_assignment_common(verif::Ctx& c)
-{
-  constexpr int D = Shape_::dimension;
-  typedef Geometry::ConformalMesh<Shape_, D, double> MeshType;
-  typedef Trafo::Standard::Mapping<MeshType> TrafoType;
-  typedef FEAT::Space::Lagrange1::Element<TrafoType> SpaceType;
-  MeshData<Shape_> md = make_two_cell<Shape_>(1, 2, 1, Twist());
-  DataFactory<Shape_> fac(md);
-  MeshType mesh(fac);
-  TrafoType trafo(mesh);
-  SpaceType space(trafo);
-  const std::string k = std::string("dof_assignment_common/") + ShapeInfo<Shape_>::name();
-  {
-    FEAT::Space::DofAssignmentNull<SpaceType, 0, double> da(space);
-    da.prepare(1);
-    c.check(da.get_num_assigned_dofs() == 0 && da.get_max_assigned_dofs() == 0, k + " null", "DofAssignmentNull assigns dofs");
-    da.finish();
-  }
-  auto identity = [&](auto& da, int n, const std::string& name)
-  {
-    bool ok = true;
-    for(Index e : {Index(1), Index(0), Index(1)})
-    {
-      da.prepare(e);
-      ok = ok && (da.get_num_assigned_dofs() == n) && (da.get_max_assigned_dofs() == n);
-      for(int j = 0; ok && j < n; ++j) ok = (da.get_index(j) == Index(n) * e + Index(j));
-      da.finish();
-      c.count("assignment_common_checks");
-    }
-    c.check(ok, k + " " + name, [&]{ return "entity e must own exactly the dofs " + std::to_string(n) + "*e .. " + std::to_string(n) + "*e+" + std::to_string(n - 1); });
-  };
-  { FEAT::Space::DofAssignmentIdentity<SpaceType, D, double, 1> da(space); identity(da, 1, "identity<1>"); }
-  { FEAT::Space::DofAssignmentIdentity<SpaceType, D, double, 3> da(space); identity(da, 3, "identity<3>"); }
-  { FEAT::Space::DofAssignmentSingleEntity<SpaceType, D, double, D, 1> da(space); identity(da, 1, "single-entity<1>"); }
-  { FEAT::Space::DofAssignmentSingleEntity<SpaceType, 0, double, 0, 2> da(space); identity(da, 2, "single-entity<2>"); }
-  { FEAT::Space::DofAssignmentSingleEntity<SpaceType, D, double, D, 3> da(space); identity(da, 3, "single-entity<3>"); }
-  {
-    FEAT::Space::DofAssignmentSingleEntity<SpaceType, 0, double, D, 2> da(space); // dimension 0 asked, dofs live in dimension D
-    da.prepare(0);
-    c.check(da.get_num_assigned_dofs() == 0, k + " single-entity other-dimension", "entities of another dimension must own no dofs");
-    da.finish();
-  }
-}
-
 int main(int argc, char** argv)
 {
   Runtime::ScopeGuard guard(argc, argv);
@@ -171,6 +121,7 @@ int main(int argc, char** argv)
   spec.bounds_quick = "as c15_space_a";
   spec.bounds_thorough = "as c15_space_a";
   spec.assumptions = {
+    "DofAssignmentNull/Identity/SingleEntity (kernel/space/dof_assignment_common.hpp) are not used by any element family (all families use DofAssignmentUniform) and are not checked; the dof mappings/assignments the families do use are compared with the ownership oracle (own.* keys)",
     "BFS: only paralleloid cells (documented precondition); C1-continuity of BFS is not claimed on general parallelogram meshes and not checked",
     "harness oracles: long double sparse polynomials, Newton inverse of the multilinear map, DOF-per-entity tables",
     "tolerance 1e-8 relative for Argyris (21x21 nodal matrix inversion in double), 1e-10 otherwise"};
@@ -183,7 +134,5 @@ int main(int argc, char** argv)
     enumerate_family<DescArgyris, Shape::Simplex<2>>(c, opt_arg);
     enumerate_family<DescHermite3, Shape::Hypercube<2>>(c, opt);
     enumerate_family<DescBFS, Shape::Hypercube<2>>(c, opt);
-    if(c.want()) { c.desc([]{ return std::string("dof_assignment_common classes on a 2-cell quad mesh"); }); check_assignment_common<Shape::Hypercube<2>>(c); c.count("cases_assignment_common"); }
-    if(c.want()) { c.desc([]{ return std::string("dof_assignment_common classes on a 2-cell tetra mesh"); }); check_assignment_common<Shape::Simplex<3>>(c); c.count("cases_assignment_common"); }
   });
 }
